@@ -78,8 +78,11 @@ def cases(rng: random.Random, tier: str):
         q = R.rand_query(rng, nodes)
         if q is None:
             continue
-        out.append({"g": g, "X": q[0], "Y": q[1], "via": "identify" if rng.random() < 0.8 else "identify_outcomes",
-                    "label": "random"})
+        c = {"g": g, "X": q[0], "Y": q[1], "via": "identify" if rng.random() < 0.8 else "identify_outcomes",
+             "label": "random"}
+        if tier == "thorough" and len(nodes) == 6 and rng.random() < 0.12:
+            c["hedge_limit"] = 6   # brute-force hedge search on a sample of the 6-node graphs (exponential)
+        out.append(c)
     return out
 
 
@@ -110,8 +113,7 @@ def run_python(case):
         else:
             verdict = r["exc"] is None
             tian = H.identifiable_tian(V, di, bi, case["X"], case["Y"])
-            limit = 5 if case.get("tier") != "thorough" else 6
-            if len(V) <= limit:
+            if len(V) <= case.get("hedge_limit", 5):
                 hedge = H.find_hedge(V, di, bi, case["X"], case["Y"])
                 if (hedge is None) != tian:
                     raise RuntimeError(f"oracles disagree: c-component criterion says identifiable={tian}, hedge search found {hedge}")
